@@ -57,13 +57,20 @@ def check_case(ctx, case):
         ctx.count('relation:' + name)
 
     # isotropic: tolerance 180 (compass, i.e. no bandwidth limit)
-    iso_case = dict(case, tolerance=180.0, directional_model='compass')
+    dmax_all = float(np.max(d0)) if len(d0) else 1.0
+    iso_cases = [('compass', dict(case, tolerance=180.0, directional_model='compass')),
+                 # ... and the triangle with a bandwidth that limits nothing (beyond twice the largest distance)
+                 ('triangle', dict(case, tolerance=180.0, directional_model='triangle',
+                                   bandwidth=dmax_all * float(ctx.rng.choice([2.5, 10.0, 1e6]))))]
     with quiet():
         iso = Variogram(coords, values, n_lags=case['n_lags'], estimator=case['estimator'], bin_func=case['bin_func'],
                         fit_method=None)
     reg('isotropic')
-    oi = obs(c12.build(iso_case))
-    if not same(oi, obs(iso)):
+    for iso_name, iso_case in iso_cases:
+        ctx.count('isotropic:' + iso_name)
+        oi = obs(c12.build(iso_case))
+        if same(oi, obs(iso)):
+            continue
         # defect model D24: co-located pairs have no direction (NaN angle) and are left out of every directional
         # variogram, so tolerance 180 reproduces the isotropic variogram *of the non-degenerate pairs*
         sig = dict(kind='isotropic', colocated_pairs_excluded=False)
@@ -78,8 +85,8 @@ def check_case(ctx, case):
             pc = [int(np.sum((dd[dd > 0] >= a) & (dd[dd > 0] < b))) for a, b in zip(lo, pe)]
             sig['colocated_pairs_excluded'] = bool(len(pe) == len(oi[0]) and np.allclose(pe, oi[0], rtol=1e-12, atol=0)
                                                     and pc == oi[1].tolist())
-        ctx.violation('isotropic', 'tolerance=180 (compass): edges %r counts %r, isotropic edges %r counts %r' % (
-            oi[0].tolist(), oi[1].tolist(), obs(iso)[0].tolist(), obs(iso)[1].tolist()), iso_case, signature=sig)
+        ctx.violation('isotropic', 'tolerance=180 (%s, no bandwidth limit): edges %r counts %r, isotropic edges %r counts %r' % (
+            iso_name, oi[0].tolist(), oi[1].tolist(), obs(iso)[0].tolist(), obs(iso)[1].tolist()), iso_case, signature=sig)
     # opposite azimuth
     az2 = az - 180 if az > 0 else az + 180
     reg('opposite')
